@@ -395,3 +395,36 @@ PROPS["C08"].rule += ("; accuracy: the chain A -> B -> C with per-cell rate cons
                       "Euler against the composition of closed-form implicit-Euler maps for the step sizes its controller "
                       "prescribes (h_start 0 / fractions of the interval), 1e-12 relative")
 PROPS["C08"].trusted = PROPS["C08"].trusted + _slv_trust
+
+
+# C12: "the same step history unless an accept/reject decision was within rounding of its threshold".  One differing
+# history can be such a decision; a defect confined to one configuration shows as many.  Differing pairs are counted
+# per family over the run (0 of ~3000 on the unchanged tree for every seed tried): at least 8 pairs and more than 1%
+# of the compared pairs is reported, with the first such case as the failing input.
+def _history_aggregate(lines, impl):
+    cnt = {}
+    first = {}
+    for k, (l, i) in enumerate(zip(lines, impl)):
+        if i is None:
+            continue
+        fam = l.split(" ", 1)[0]
+        toks = i.split()
+        d = toks.count("NOTE_HISTORY_DIFFERS")
+        n = d + toks.count("NOTE_HISTORY_SAME")
+        if n:
+            c = cnt.setdefault(fam, [0, 0])
+            c[0] += d
+            c[1] += n
+            if d and fam not in first:
+                first[fam] = k
+    out = []
+    for fam, (d, n) in sorted(cnt.items()):
+        if d >= 8 and d > 0.01 * n:
+            out.append((first[fam], ["ORACLE_STEP_HISTORY_DEPENDS_ON_CONFIGURATION:%d_of_%d_pairs_in_family_%s" % (d, n, fam)]))
+    return out
+
+
+PROPS["C12"].aggregate = _history_aggregate
+PROPS["C12"].oracle_tokens = PROPS["C12"].oracle_tokens + ["ORACLE_STEP_HISTORY_DEPENDS_ON_CONFIGURATION"]
+PROPS["C12"].rule += ("; step histories (steps, accepted) of the configurations of one problem are counted over the run: "
+                      ">= 8 differing pairs and > 1% of the pairs of a family is a violation")
